@@ -75,8 +75,8 @@ type World struct {
 	Pool     []*Emitted
 	StartVal map[OpID]string
 	// Reports: every decided message returned by Controller.ProcessMsg, per operator
-	Reports map[OpID][]*specqbft.SignedMessage
-	Log     *zap.Logger
+	Reports  map[OpID][]*specqbft.SignedMessage
+	Log      *zap.Logger
 	FullNode bool
 	// FailBroadcast, when set, makes the capturing network report an error for the selected publishes
 	// (the message is still captured: "delivered but the call errored").
@@ -134,6 +134,21 @@ func ValueName(b []byte) string {
 	return "?" + s
 }
 
+// LocalBad lists, per operator, values that fail THAT operator's own value check only (the check is operator-local,
+// e.g. its slashing protection). Set by a driver before NewWorld and cleared afterwards.
+var LocalBad = map[OpID]map[string]bool{}
+
+// ValueCheckFor is operator id's value check.
+func ValueCheckFor(id OpID, data []byte) error {
+	if err := ValueCheck(data); err != nil {
+		return err
+	}
+	if LocalBad[id][ValueName(data)] {
+		return fmt.Errorf("invalid value for operator %d", id)
+	}
+	return nil
+}
+
 func ValueCheck(data []byte) error {
 	if len(data) == 0 {
 		return fmt.Errorf("empty value")
@@ -182,7 +197,7 @@ func NewWorld(n int, byz []int, height uint64, startVals map[int]string, role sp
 			Signer:                tu.NewTestingKeyManager(),
 			SigningPK:             share.SharePubKey,
 			Domain:                Domain,
-			ValueCheckF:           ValueCheck,
+			ValueCheckF:           func(d []byte) error { return ValueCheckFor(id, d) },
 			ProposerF:             specqbft.RoundRobinProposer,
 			Storage:               qbftstorage.NewStoresFromRoles(db, role).Get(role),
 			Network:               &capNet{w: w, from: id},
